@@ -70,7 +70,7 @@ func (Prop) Size(tier string) int {
 }
 func (Prop) FreshProcessShrink() bool { return false }
 func (Prop) Rule() string {
-	return "plan = workspace directory (1-4 scripts .p/.ppl that change measurement, time via default_time, tags, fields, and use() siblings; decoy files with other extensions, a sub-directory, sometimes a dangling symlink) x selected script x mode {workspace, single file by bare name, single file by path} x input {text, line protocol with/without timestamp, several points} x output {json, lineprotocol} x simulated wall-clock instant and TZ x file faults {no -i, input missing, directory for file, dangling symlink, empty input, selected script unparsable / check-failing / linked to a broken or missing sibling}; evaluation = one CLI process run against its library reference; non-trivial = the CLI produced an output block that was compared, or a fault run was checked for the absence of one; distinct = hash of the workload"
+	return "plan = workspace directory (1-4 scripts .p/.ppl that change measurement, time via default_time, tags, fields, and use() siblings; keys with names that mean something elsewhere such as time/name/status; script files that are symbolic links; CR LF files, multi-line literals; decoy files with other extensions, a sub-directory, sometimes a dangling symlink) x selected script x mode {workspace, single file by bare name, single file by path} x input {text, line protocol with/without timestamp, several points} x output {json, lineprotocol} x simulated wall-clock instant and TZ x file faults {no -i, input missing, directory for file, dangling symlink, empty input, selected script unparsable / check-failing / linked to a broken or missing sibling}; evaluation = one CLI process run against its library reference; non-trivial = the CLI produced an output block that was compared, or a fault run was checked for the absence of one; distinct = hash of the workload"
 }
 func (Prop) Assumptions() []string {
 	return []string{
